@@ -99,6 +99,7 @@ VARIANTS = {
     'std::collections::hash::map::Entry': ['Occupied', 'Vacant'],
     'core::cmp::Ordering': ['Less', 'Equal', 'Greater'],
     'core::ops::control_flow::ControlFlow': ['Continue', 'Break'],
+    'core::task::poll::Poll': ['Ready', 'Pending'],
 }
 ORDERING_DISCR = {0: -1, 1: 0, 2: 1}
 
@@ -131,6 +132,7 @@ class Interp:
         self.step_limit = step_limit
         self.oracle_log = []
         self.opaque_call = opaque_call     # fn(interp, name, args, term) -> value or None (not handled)
+        self.poll_hook = None              # fn(interp, pin, future_value) -> output value or None
         self.trace = []
 
     # ---- nondeterminism --------------------------------------------------------------------------------------------
@@ -166,6 +168,8 @@ class Interp:
                     fields = v[2]
                 elif v[0] in ('occ', 'vac'):
                     raise Unmodelled('field access into an entry handle')
+                elif v[0] == 'ref' and e['f'] == 0:
+                    continue       # Pin<&mut T> is modelled as the reference itself: `.0` (its pointer field) is transparent
                 else:
                     raise Unmodelled('field %s of %r' % (e['f'], v[0]))
                 while len(fields) <= e['f']:
@@ -200,7 +204,7 @@ class Interp:
             if 'fn' in c:
                 return ('fnptr', strip_generics(c['fn']))
             if 'str' in c:
-                return ('opaque', 'str')
+                return ('ref', Cell(('opaque', 'str')))
             if c.get('uneval'):
                 return ('const', strip_generics(c['uneval']), ty)
             return ('opaque', 'const:' + ty)
@@ -243,7 +247,7 @@ class Interp:
                 return ('tuple', ops) if ops else UNIT
             if a == 'adt':
                 return ('adt', strip_generics(rv['adt']), rv['variant'], ops)
-            if a == 'closure':
+            if a in ('closure', 'coroutine', 'coroutine_closure'):
                 return ('closure', rv['def'], ops)
             if a == 'array':
                 return ('arr', ops)
@@ -340,6 +344,7 @@ class Interp:
                 b = tgt if tgt is not None else t['otherwise']
             elif k == 'call':
                 args_v = [self.operand(frame, a) for a in t['args']]
+                self.cur = (body, t)
                 r = self.call(body, t, args_v, depth)
                 if t['target'] is None:
                     raise Unmodelled('diverging call %s' % cname(t))
@@ -385,7 +390,25 @@ class Interp:
             wb = self.facts.body(name)
         if wb is not None and wb.kind in ('fn', 'method', 'assoc_fn', 'function') and wb.crate in self.facts.crates:
             return self.run_body(wb, args, depth + 1)
+        if wb is not None and wb.kind == 'coroutine' and wb.crate in self.facts.crates and len(args) == 2:
+            # the poll of an awaited workspace `async fn` / async block: run its body to completion (awaited futures
+            # resolve at once in this sequential model) on the pinned state
+            return self.poll_coroutine(args[0], depth)
         return self.model_call(name, args, t, depth)
+
+    def poll_coroutine(self, pin, depth):
+        st = self.deref_all(pin)
+        if st is not None and st[0] in ('future', 'orx') and self.poll_hook is not None:
+            r = self.poll_hook(self, pin, st)
+            if r is not None:
+                return ('adt', 'core::task::poll::Poll', 0, [Cell(r)])
+        if st is None or st[0] != 'closure':
+            raise Unmodelled('poll of %r' % (st[0] if st else None,))
+        kb = self.facts.bodies.get(st[1])
+        if kb is None:
+            raise Unmodelled('coroutine body %s not found' % st[1])
+        r = self.run_body(kb, [st, ('opaque', 'cx')], depth + 1)
+        return ('adt', 'core::task::poll::Poll', 0, [Cell(r)])
 
     # ---- models ----------------------------------------------------------------------------------------------------
     def map_of(self, v):
@@ -469,6 +492,20 @@ class Interp:
             return UNIT
         if name.startswith('core::panicking::') or name == 'std::rt::begin_panic':
             raise PanicPath(name)
+        if name in ('core::future::into_future::IntoFuture::into_future', 'core::pin::Pin::new_unchecked', 'core::pin::Pin::new',
+                    'core::pin::Pin::as_mut', 'core::pin::Pin::get_mut', 'core::pin::Pin::into_inner', 'core::pin::Pin::get_unchecked_mut'):
+            return A[0]
+        if name == 'core::future::get_context':
+            return ('ref', Cell(('opaque', 'cx')))
+        if name == 'core::future::future::Future::poll':
+            f = self.deref_all(A[0])
+            if f is not None and f[0] == 'closure':
+                return self.poll_coroutine(A[0], depth)
+            if self.poll_hook is not None:
+                r = self.poll_hook(self, A[0], f)
+                if r is not None:
+                    return ('adt', 'core::task::poll::Poll', 0, [Cell(r)])
+            raise Unmodelled('poll of an unmodelled future %r' % (f,))
         if name.startswith('core::fmt::') or name.startswith('tracing') or name.startswith('log::'):
             return ('opaque', 'fmt')
         if name in ('core::ops::function::FnOnce::call_once', 'core::ops::function::FnMut::call_mut', 'core::ops::function::Fn::call'):
@@ -484,6 +521,10 @@ class Interp:
                 if v[2] == 1:
                     return ('adt', 'core::ops::control_flow::ControlFlow', 0, [Cell(v[3][0].v)])
                 return ('adt', 'core::ops::control_flow::ControlFlow', 1, [Cell(mk_option(None))])
+            if v[0] == 'adt' and v[1] == 'core::result::Result':
+                if v[2] == 0:
+                    return ('adt', 'core::ops::control_flow::ControlFlow', 0, [Cell(v[3][0].v if v[3] else UNIT)])
+                return ('adt', 'core::ops::control_flow::ControlFlow', 1, [Cell(('adt', 'core::result::Result', 1, [Cell(v[3][0].v)]))])
             raise Unmodelled('Try::branch on %r' % (v[1] if v[0] == 'adt' else v[0],))
         if name == 'core::ops::try_trait::FromResidual::from_residual':
             return A[0]
@@ -773,7 +814,7 @@ class Interp:
             return d[1]
         if d[0] == 'vec':
             if is_ref:
-                raise Unmodelled('iteration over &Vec')
+                return IterObj([('ref', Cell(x)) for x in d[1]])
             return IterObj(list(d[1]))
         if d[0] == 'map':
             m = d[1]
@@ -920,7 +961,8 @@ class Interp:
             if seg == 'pop':
                 return mk_option(xs.pop()) if xs else mk_option(None)
             if seg == 'len':
-                return ('int', len(xs))
+                # the abstract collection stands for collections of any size with this shape: its length is not a known number
+                return ('int', None) if xs else ('int', 0)
             if seg == 'is_empty':
                 return mk_bool(not xs)
             if seg == 'clear':
@@ -972,7 +1014,20 @@ class Interp:
             out.append(x)
 
     def collect(self, io, t_hint, depth):
-        return ('vec', self.drain(io, depth))
+        xs = self.drain(io, depth)
+        body, t = getattr(self, 'cur', (None, None))
+        ty = body.local_ty(t['dest']['l']) if body is not None and t is not None and not t['dest']['p'] else ''
+        from facts import ty_head
+        h = ty_head(ty)
+        if h in ('std::collections::hash::set::HashSet', 'alloc::collections::btree::set::BTreeSet'):
+            return ('set', {self.key_of(x) for x in xs})
+        if h in ('std::collections::hash::map::HashMap', 'alloc::collections::btree::map::BTreeMap'):
+            m = MapObj('hash' if 'hash' in h else 'btree')
+            for x in xs:
+                x = self.deref_all(x)
+                m.items[self.key_of(x[1][0].v)] = Cell(self.deref_all(x[1][1].v))
+            return ('map', m)
+        return ('vec', xs)
 
     def sort(self, xs, seg, clo, depth):
         import functools
